@@ -973,8 +973,9 @@ fn gen_candidate(rng: &mut Rng, t: &T) -> [Named; 2] {
                         if rng.chance(0.5) {
                             cand[p].push(e);
                         } else if let Some(k) = cand[p].iter().position(|(l, _)| *l == keep) {
-                            let x = cand[p][k].1[0];
-                            cand[p][k].1.push(x);
+                            if let Some(x) = cand[p][k].1.first().cloned() {
+                                cand[p][k].1.push(x);
+                            }
                         }
                     }
                 }
